@@ -16,7 +16,7 @@ vars == <<tree, ops, last>>
 
 N(n, nosel, sub) == [name |-> n, nosel |-> nosel, sub |-> sub]
 Ev(act, status, n, n2) == [act |-> act, status |-> status, name |-> n, name2 |-> n2,
-                           ref |-> <<>>, pat |-> <<>>, pats |-> <<>>, lsub |-> FALSE]
+                           ref |-> <<>>, pat |-> <<>>, pats |-> <<>>, lsub |-> FALSE, sel |-> "", ret |-> ""]
 
 Init ==
     /\ tree = {N(Inbox, FALSE, FALSE)}
@@ -68,6 +68,10 @@ List(ref, pat, lsub) ==
 ListMulti(ref, p1, p2) ==
     Step([Ev("List", "OK", <<>>, <<>>) EXCEPT !.ref = ref, !.pat = p1, !.pats = <<p1, p2>>], tree)
 
+(* RFC 5258: LIST (SUBSCRIBED) ref pat  /  LIST ref pat RETURN (SUBSCRIBED) *)
+ListExt(ref, pat, sel, ret) ==
+    Step([Ev("List", "OK", <<>>, <<>>) EXCEPT !.ref = ref, !.pat = pat, !.pats = <<pat>>, !.sel = sel, !.ret = ret], tree)
+
 Restart == Step(Ev("Restart", "OK", <<>>, <<>>), tree)
 
 Next ==
@@ -76,6 +80,7 @@ Next ==
     \/ \E n \in NameSet, on \in BOOLEAN : Subscribe(n, on)
     \/ \E r \in RefSet, p \in PatSet, l \in BOOLEAN : List(r, p, l)
     \/ \E r \in RefSet, p1 \in PatSet, p2 \in PatSet : p1 # p2 /\ ListMulti(r, p1, p2)
+    \/ \E r \in RefSet, p \in PatSet : ListExt(r, p, "SUBSCRIBED", "") \/ ListExt(r, p, "", "SUBSCRIBED")
     \/ Restart
 
 Spec == Init /\ [][Next]_vars
